@@ -126,6 +126,13 @@ func signedarea(polygon []Point) float64 {
 // actually inside the outer rings.
 // This has not been thoroughly tested.
 func (p Polygon) Centroid() Point {
+	// The sums below are cubic in the coordinates. When the cubes would leave
+	// the floating point range, the centroid of a copy scaled by a power of
+	// two (which is exact) is calculated and scaled back.
+	if k := centroidScale(p); k != 1 {
+		c := p.scaled(k).Centroid()
+		return Point{X: c.X * k, Y: c.Y * k}
+	}
 	var A, xA, yA float64
 	for _, r := range p {
 		a := signedarea(r)
@@ -149,4 +156,35 @@ func (p Polygon) Centroid() Point {
 		yA += cy * a
 	}
 	return Point{X: xA / A, Y: yA / A}
+}
+
+// centroidScale returns the power of two by which the coordinates of the rings
+// are to be divided before the cubic sums of the centroid formula are formed,
+// or 1 when the largest coordinate is inside [2^-300, 2^300].
+func centroidScale(rings ...Polygon) float64 {
+	m := 0.
+	for _, p := range rings {
+		for _, r := range p {
+			for _, v := range r {
+				m = math.Max(m, math.Max(math.Abs(v.X), math.Abs(v.Y)))
+			}
+		}
+	}
+	if (m >= 0x1p300 || (m <= 0x1p-300 && m > 0)) && !math.IsInf(m, 0) {
+		_, e := math.Frexp(m)
+		return math.Ldexp(1, e-1)
+	}
+	return 1
+}
+
+// scaled returns a copy of p with every coordinate divided by k.
+func (p Polygon) scaled(k float64) Polygon {
+	q := make(Polygon, len(p))
+	for i, r := range p {
+		q[i] = make(Path, len(r))
+		for j, v := range r {
+			q[i][j] = Point{X: v.X / k, Y: v.Y / k}
+		}
+	}
+	return q
 }
